@@ -52,7 +52,7 @@ def _run_exe(exe, text, timeout):
                        timeout=timeout)
     return p.returncode, p.stdout
 
-def run_both(scripts, timeout=600):
+def run_both(scripts, timeout=600, isolate=None):
     """scripts: list of lists of lines (first line `cfg ...`). Returns, per script, a list of
     (line, impl_out, model_out, spec_out). A crash / deadlock of the implementation process is
     reported as impl_out = 'crash' for the remaining lines of its shard (then bisected)."""
@@ -61,8 +61,14 @@ def run_both(scripts, timeout=600):
         return []
     nshards = min(NPROC, n)
     shards = [[] for _ in range(nshards)]
+    iso = []
     for i, s in enumerate(scripts):
-        shards[i % nshards].append(i)
+        if isolate and isolate[i]:
+            iso.append([i])          # its own process (e.g. behaviour that depends on process-wide state)
+        else:
+            shards[i % nshards].append(i)
+    shards = [sh for sh in shards if sh] + iso
+    nshards = min(NPROC, len(shards))
     def work(idx):
         text = ''.join(l + '\n' for i in idx for l in scripts[i])
         rc_i, out_i = _run_exe(IMPL, text, timeout)
@@ -99,9 +105,15 @@ def run_both(scripts, timeout=600):
                     results[i] = rows
     return results
 
+# outputs with which the harness itself reports that two public paths of the implementation
+# disagreed on one input (each is a concrete failing input, not an error the property allows)
+HARNESS_VERDICTS = {'err serde-paths-differ', 'err serde-text-form-differs'}
+
 def oracle_ok(impl, spec):
     """Does the implementation's output satisfy the plain-sequence oracle? The oracle never demands
     more than the property states: `*` = anything, `err *` = any error (not a panic, not ok)."""
+    if impl in HARNESS_VERDICTS:
+        return False
     if spec == '*':
         return True
     if spec == 'err *':
